@@ -17,6 +17,7 @@ import (
 	"net"
 	"strings"
 	"testing"
+	"time"
 
 	"github.com/emersion/go-message/textproto"
 	"github.com/emersion/go-msgauth/authres"
@@ -149,6 +150,23 @@ type c07Scenario struct {
 	// 5 SERVFAIL at From domain; 6 NXDOMAIN at From domain, SERVFAIL at organisational domain; 7 timeout at From domain;
 	// 8 only TXT records that are not DMARC records at the From domain (a wildcard SPF record, say), the record at the organisational domain
 	Lookup int `json:"lookup"`
+	// the resolver answers after 2 ms and honours the context it was given, as net.Resolver does (the policy is
+	// fetched in the background while the body checks run)
+	SlowDNS bool `json:"slow_context_aware_resolver,omitempty"`
+}
+
+// c07SlowResolver: answers late and gives up when its context is cancelled.
+type c07SlowResolver struct {
+	*mockdns.Resolver
+}
+
+func (r c07SlowResolver) LookupTXT(ctx context.Context, name string) ([]string, error) {
+	select {
+	case <-ctx.Done():
+		return nil, ctx.Err()
+	case <-time.After(2 * time.Millisecond):
+	}
+	return r.Resolver.LookupTXT(ctx, name)
 }
 
 func (sc c07Scenario) fromDomain() string { return c07FromDomains[sc.FromDom] }
@@ -199,6 +217,7 @@ func c07Gen(t *rapid.T) c07Scenario {
 	sc.Pct100 = rapid.IntRange(0, 3).Draw(t, "pct") == 0
 	sc.Lookup = rapid.SampledFrom([]int{0, 0, 0, 0, 1, 1, 1, 2, 3, 4, 5, 6, 7, 8, 8}).Draw(t, "lookup")
 	sc.CheckQuarantines = rapid.IntRange(0, 5).Draw(t, "check_quarantines") == 0
+	sc.SlowDNS = rapid.IntRange(0, 11).Draw(t, "slow_dns") == 0
 	return sc
 }
 
@@ -441,7 +460,7 @@ func c07Execute(sc c07Scenario) c07Observed {
 		msgpipelineCfg: msgpipelineCfg{
 			globalChecks: []module.Check{&testutils.Check{BodyRes: module.CheckResult{AuthResult: c07AuthRes(sc), Quarantine: sc.CheckQuarantines,
 				Reason: map[bool]error{true: &exterrors.SMTPError{Code: 550, EnhancedCode: exterrors.EnhancedCode{5, 7, 20}, Message: "check says quarantine"}, false: nil}[sc.CheckQuarantines]}}},
-			perSource:    map[string]sourceBlock{},
+			perSource: map[string]sourceBlock{},
 			defaultSource: sourceBlock{
 				perRcpt:     map[string]*rcptBlock{},
 				defaultRcpt: &rcptBlock{targets: []module.DeliveryTarget{&tgt}},
@@ -450,6 +469,9 @@ func c07Execute(sc c07Scenario) c07Observed {
 		},
 		Log:      log.Logger{Out: log.NopOutput{}},
 		Resolver: &mockdns.Resolver{Zones: c07Zones(sc)},
+	}
+	if sc.SlowDNS {
+		p.Resolver = c07SlowResolver{&mockdns.Resolver{Zones: c07Zones(sc)}}
 	}
 	hdr, err := textproto.ReadHeader(bufio.NewReader(strings.NewReader(c07Header(sc))))
 	if err != nil {
